@@ -280,7 +280,7 @@ func (a *aggregate) add(r *TrialResult) {
 	if r.Violation != nil && a.survey != nil {
 		a.survey[r.Violation.Signature]++
 		if _, ok := a.surveyEx[r.Violation.Signature]; !ok {
-			a.surveyEx[r.Violation.Signature] = r.Violation.Detail
+			a.surveyEx[r.Violation.Signature] = fmt.Sprintf("[trial %d] ", r.Trial) + r.Violation.Detail
 		}
 		return
 	}
@@ -314,6 +314,25 @@ func driverMain() {
 	case "replay":
 		d.eng = engines[prop]
 		os.Exit(d.replayFile(os.Getenv("VERIF_REPLAY")))
+	case "trial":
+		d.eng = engines[prop]
+		n := uint64(envInt("VERIF_TRIALNO", 0))
+		p, err := spawnWorker()
+		if err != nil {
+			fatalInfra("spawn: %v", err)
+		}
+		res, died, why := p.call(&Request{Kind: "trial", Prop: prop, Tier: tier, Trial: n, Seed: mixSeed(seed, prop, n), Keep: true, WantLog: true}, d.timeout)
+		if died {
+			fmt.Println("DIED:", why)
+			fmt.Println(p.stderr.String())
+			os.Exit(1)
+		}
+		for _, l := range res.Trace {
+			fmt.Println("  " + l)
+		}
+		b, _ := json.Marshal(res.Violation)
+		fmt.Println(string(b), res.Infra, res.KnownHit)
+		os.Exit(0)
 	case "hashes":
 		d.eng = engines[prop]
 		d.dumpHashes()
